@@ -129,7 +129,8 @@ Record cstate_r := mkCR {
   pend_nl : bool;
   pend_blank : bool;
   pend_margin : bool;
-  cpanic : bool }.           (* PADDING[..missing] with missing > 50 *)
+  cpanic : bool }.           (* a panic of the renderer: none is left -- before the fix `PADDING[..missing]` with
+                                missing > 50 was one (margins of deeply nested blocks) *)
 
 Definition push_rev (s : str) (r : str) : str := rev_append s r.
 
@@ -160,7 +161,7 @@ Definition raw_step (max_width : N) (s : str) (w : N) (st : cstate_r) : cstate_r
     let '(r2, cp2, pushed, p2) :=
       if (cp1 <=? margin)%N
       then let missing := (margin - cp1)%N in
-           (push_rev (pad missing) r1, margin, missing, (50 <? missing)%N)
+           (push_rev (pad missing) r1, margin, missing, false)
       else (r1, cp1, 0%N, false) in
     let '(r3, cp3, p3) :=
       if pend_margin st && (MAX_TAB + 4 <=? cp2)%N && (pushed <? 2)%N
